@@ -171,14 +171,16 @@ SPECS["C05"] = {
 }
 
 SPECS["C28"] = {
-    "parts": [{"engine": "m", "module": "c28"}],
+    "parts": [{"engine": "m", "module": "c28"}, {"engine": "m", "module": "c28rq"}],
     "functions": ["dicom_ul::association::server::ServerAssociationOptions::process_a_association_rq::{closure#1} (per-context negotiation)", "ServerAssociationOptions::choose_ts (+ closure)",
-                  "dicom_ul::association::server::choose_supported (+ closure)", "dicom_ul::association::uid::trim_uid (+ closure)"],
-    "bounds": "universe: abstract syntaxes {1.2.3, 1.2.4} proposed as 4 texts (plain and NUL-padded), transfer syntaxes {Implicit VR LE, Explicit VR LE, an unknown UID} proposed as 4 texts (one NUL-padded), 0..2 proposed transfer syntaxes in any order "
+                  "dicom_ul::association::server::choose_supported (+ closure)", "dicom_ul::association::uid::trim_uid (+ closure)",
+                  "dicom_ul::association::server::ServerAssociationOptions::process_a_association_rq (whole function, + closures)"],
+    "bounds": "whole request: symbolic protocol version, right / wrong application context name, 0..2 user items (Max Length with any 32-bit value, version name, role selection), 0..2 proposed contexts with symbolic identifiers, "
+              "access control granting or refusing with any of its three specific reasons; per-context universe: abstract syntaxes {1.2.3, 1.2.4} proposed as 4 texts (plain and NUL-padded), transfer syntaxes {Implicit VR LE, Explicit VR LE, an unknown UID} proposed as 4 texts (one NUL-padded), 0..2 proposed transfer syntaxes in any order "
               "with repetition; configuration: any subset of the 2 abstract syntaxes, any subset of the 3 transfer syntaxes, promiscuous on/off; identifier symbolic (about 5400 paths)",
-    "outside": "more than one context per request (the closure is mapped over them), rejection of the whole request (protocol version, application context name, access control), maximum PDU length handling, user variable negotiation, "
+    "outside": "more than 2 contexts or 2 user items per request, the negotiation callbacks (contracts answering None), user identity items, the acceptor's own maximum PDU length announcement, "
                "space-padded UIDs (trim_uid only trims texts ending in NUL: stated by the property as NUL-padded UIDs)",
-    "assumptions": ["contract: is_supported(uid) <=> the NUL-trimmed uid is Implicit or Explicit VR Little Endian (registry behaviour is decided under C16)", "slice::contains / str equality over concrete texts",
+    "assumptions": ["contract: is_supported(uid) <=> the NUL-trimmed uid is Implicit or Explicit VR Little Endian (registry behaviour is decided under C16)", "slice::contains / str equality over concrete texts", "contracts: AccessControl::check_access answers Ok or Err(reason) (both explored), Negotiation::{negotiate_roles, extended_negotiation} answer None, snafu builders are opaque",
                     "oracle: the rules of the property statement written out in enginem/cases/c28.py; counterexamples are replayed against a real acceptor over a loopback socket (raw A-ASSOCIATE-RQ in, A-ASSOCIATE-AC out)"],
 }
 
